@@ -6,12 +6,14 @@
    in Spec/XmlSim.v; [to_xml_top] / [eml_to_xml_top] (Model/XmlOut.v) are the models of
    metapype_io.to_xml and metapype.eml.export.to_xml. *)
 From MP Require Import Common.Base Common.Tree Common.XStr Spec.Xml Spec.XmlSim Model.XmlOut
-  Proofs.C07_Escape Proofs.C07_Lex Proofs.C07_Parse Proofs.C07_General.
+  Proofs.C07_Escape Proofs.C07_Lex Proofs.C07_Parse Proofs.C07_General Proofs.C07_Eml.
 
-(** Stage 1: escaped text is a sequence of plain characters (no less-than, greater-than or
-    ampersand; in attribute values also no double quote, tab, newline, CR) and references, and
-    the parser's decoders map it back to the original string — for every string. *)
-Theorem escape_clean : forall x, escaped false (escape x).
+(** Stage 1: escaped text is a sequence of plain characters (no less-than, greater-than,
+    ampersand or CR; in attribute values also no double quote, tab, newline) and references,
+    and the parser's decoders map it back to the original string — for every string.
+    [escape_text] = saxutils.escape(text, CR -> &#13;) is what both exporters apply to content
+    and tail, [escape_attr] what they apply to attribute values. *)
+Theorem escape_clean : forall x, escaped false (escape_text x).
 Proof. exact escape_clean. Qed.
 Print Assumptions escape_clean.
 
@@ -19,11 +21,11 @@ Theorem escape_attr_clean : forall x, escaped true (escape_attr x).
 Proof. exact escape_attr_clean. Qed.
 Print Assumptions escape_attr_clean.
 
-Theorem escape_no_markup : forall x, ~ In 60%N (escape x) /\ ~ In 62%N (escape x).
+Theorem escape_no_markup : forall x, ~ In 60%N (escape_text x) /\ ~ In 62%N (escape_text x).
 Proof. exact (fun x => conj (escape_no_lt x) (escape_no_gt x)). Qed.
 Print Assumptions escape_no_markup.
 
-Theorem escape_decode : forall x, xtext_decode (escape x) = Some x.
+Theorem escape_decode : forall x, xtext_decode (escape_text x) = Some x.
 Proof. exact escape_decode. Qed.
 Print Assumptions escape_decode.
 
@@ -44,8 +46,8 @@ Proof. exact C07_lexical_stmt. Qed.
 Print Assumptions C07_lexical.
 
 (** Stage 3: the general exporter.  For every tree over XML-legal names, with prefixes bound
-    in the node's own map to legal namespace names, XML-representable values (text without CR;
-    attribute values: any XML character), well-formed dicts, children that keep their
+    in the node's own map to legal namespace names, XML-representable values (any XML 1.0
+    character, CR included: it is written as a reference), well-formed dicts, children that keep their
     parent's prefixes, and no tail on the root: the output is well-formed and parses back to
     the same names, prefixes, attributes, qualified attributes, in-scope bindings and child
     order, content and tail up to leading/trailing white space (mixed content and tails
@@ -73,3 +75,18 @@ Theorem C07_general_witness :
   /\ xparse (to_xml_top witness) <> None.
 Proof. exact (conj witness_in_class witness_parses). Qed.
 Print Assumptions C07_general_witness.
+
+(** Stage 4: the EML exporter.  For every tree over XML-legal element and attribute names with
+    XML-representable values in which no node carries both text and children and content is
+    free of the pre-escaped entity spellings and of inline para tags: the output is
+    well-formed and parses back to the same local names, attributes, child order and text (up
+    to surrounding white space); on an eml root the boilerplate declarations and
+    xsi:schemaLocation are added and the element is written eml:eml. *)
+Theorem C07_eml : forall t,
+  eml_class t -> exists x, xparse (eml_to_xml_top t) = Some x /\ esim x t.
+Proof. exact C07_eml_proof. Qed.
+Print Assumptions C07_eml.
+
+Theorem C07_eml_witness : eml_class ewitness /\ xparse (eml_to_xml_top ewitness) <> None.
+Proof. exact (conj ewitness_in_class ewitness_parses). Qed.
+Print Assumptions C07_eml_witness.
